@@ -263,6 +263,40 @@ func runC06(c *Ctx, prop string) {
 		c.Sites++
 		c.Check(len(bad) == 0, "C07-AREA", fnName(parse), "area-iff-tag", parse.Pos(), "areas only for matched, non-empty @tag comments", strings.Join(bad, "; "))
 	}
+	// ---------------- SOURCE: which text the annotation is looked for in
+	c.Rule(prop+"-SOURCE", "the @tag annotation is looked for in the raw text of each comment of the field's trailing comment group (ast.Comment.Text); CommentGroup.Text() is not used: it silently drops directive-shaped comments (//nolint:…, //go:…, //line …), so a field annotated in such a comment is not injected", 1)
+	{
+		var bad []string
+		raw := 0
+		for _, fn := range p.Funcs {
+			if fn.Pkg == nil || fn.Pkg != p.Pkg("file") {
+				continue
+			}
+			for _, b := range fn.Blocks {
+				for _, ins := range b.Instrs {
+					switch x := ins.(type) {
+					case ssa.CallInstruction:
+						if nm := calleeName(x.Common()); nm == "(*go/ast.CommentGroup).Text" {
+							bad = append(bad, fnName(fn)+" reads the annotation through CommentGroup.Text() at "+p.Pos(instrPos(ins))+": comments that look like directives (//nolint:lll @tag …) are dropped by it, the field is silently not injected")
+						}
+					case *ssa.FieldAddr:
+						if isNamed(derefType(x.X.Type()), "go/ast", "Comment") && fieldAddrName(x) == "Text" {
+							raw++
+						}
+					case *ssa.Field:
+						if isNamed(x.X.Type(), "go/ast", "Comment") && fieldValName(x) == "Text" {
+							raw++
+						}
+					}
+				}
+			}
+		}
+		c.Sites += raw
+		if raw == 0 {
+			bad = append(bad, "no read of ast.Comment.Text found in package file")
+		}
+		c.Check(len(bad) == 0, prop+"-SOURCE", "file", "raw-comment-text", parse.Pos(), fmt.Sprintf("%d reads of ast.Comment.Text, no CommentGroup.Text()", raw), strings.Join(bad, "; "))
+	}
 	// ---------------- ROLE
 	c.Rule(prop+"-ROLE", "new literal = newTagItems(CurrentTag).override(newTagItems(InjectTag)), rendered by format() inside backticks; format joins key:value pairs with one space", 1)
 	{
